@@ -15,6 +15,7 @@ use std::collections::HashMap;
 use std::hash::BuildHasherDefault;
 use twox_hash::XxHash32;
 
+pub type NoHash0 = probminhash::nohasher::NoHashHasher;
 pub type NoHash1 = probminhash::superminhasher::NoHashHasher;
 pub type NoHash2 = probminhash::superminhasher2::NoHashHasher;
 
@@ -127,7 +128,10 @@ pub fn fkey(x: f64) -> u128 {
 // ---------------------------------------------------------------- SuperMinHash
 macro_rules! smh_impl {
     ($name:ident, $f:ty, $h:ty) => {
-        pub struct $name(pub SuperMinHash<$f, u64, $h>, usize);
+        smh_impl!($name, $f, $h, u64);
+    };
+    ($name:ident, $f:ty, $h:ty, $t:ty) => {
+        pub struct $name(pub SuperMinHash<$f, $t, $h>, usize);
         impl $name {
             pub fn new(m: usize) -> Self {
                 $name(SuperMinHash::new(m, BuildHasherDefault::<$h>::default()), m)
@@ -138,13 +142,13 @@ macro_rules! smh_impl {
                 self.1
             }
             fn sketch(&mut self, it: &Item) -> &'static str {
-                match self.0.sketch(&it.id) {
+                match self.0.sketch(&(it.id as $t)) {
                     Ok(()) => O_OK,
                     Err(_) => O_ERR,
                 }
             }
             fn batch(&mut self, its: &[Item], entry: usize) -> &'static str {
-                let ids: Vec<u64> = its.iter().map(|i| i.id).collect();
+                let ids: Vec<$t> = its.iter().map(|i| i.id as $t).collect();
                 if entry == E_SLICE {
                     match self.0.sketch_slice(&ids) {
                         Ok(()) => O_OK,
@@ -185,11 +189,16 @@ smh_impl!(SmhF64Fnv, f64, FnvHasher);
 smh_impl!(SmhF32Fnv, f32, FnvHasher);
 smh_impl!(SmhF64No, f64, NoHash1);
 smh_impl!(SmhF32No, f32, NoHash1);
+// 4-byte items through the identity hasher (the other arm of its `write`)
+smh_impl!(SmhF64No32, f64, NoHash1, u32);
 
 // ---------------------------------------------------------------- SuperMinHash2
 macro_rules! smh2_impl {
     ($name:ident, $i:ty, $h:ty) => {
-        pub struct $name(pub SuperMinHash2<$i, u64, $h>, usize);
+        smh2_impl!($name, $i, $h, u64);
+    };
+    ($name:ident, $i:ty, $h:ty, $t:ty) => {
+        pub struct $name(pub SuperMinHash2<$i, $t, $h>, usize);
         impl $name {
             pub fn new(m: usize) -> Self {
                 $name(SuperMinHash2::new(m, BuildHasherDefault::<$h>::default()), m)
@@ -200,13 +209,13 @@ macro_rules! smh2_impl {
                 self.1
             }
             fn sketch(&mut self, it: &Item) -> &'static str {
-                match self.0.sketch(&it.id) {
+                match self.0.sketch(&(it.id as $t)) {
                     Ok(()) => O_OK,
                     Err(_) => O_ERR,
                 }
             }
             fn batch(&mut self, its: &[Item], entry: usize) -> &'static str {
-                let ids: Vec<u64> = its.iter().map(|i| i.id).collect();
+                let ids: Vec<$t> = its.iter().map(|i| i.id as $t).collect();
                 if entry == E_SLICE {
                     match self.0.sketch_slice(&ids) {
                         Ok(()) => O_OK,
@@ -250,6 +259,7 @@ macro_rules! smh2_impl {
 smh2_impl!(Smh2U64Fnv, u64, FnvHasher);
 smh2_impl!(Smh2U64No, u64, NoHash2);
 smh2_impl!(Smh2U32Xx, u32, XxHash32);
+smh2_impl!(Smh2U64No32, u64, NoHash2, u32);
 
 // ---------------------------------------------------------------- SetSketch
 #[derive(Clone, Copy, Debug)]
@@ -484,6 +494,148 @@ impl Sk for Pmh3a {
     }
 }
 
+// the same three behind the crate's identity hasher (identifiers are "already hashed" 64-bit values)
+pub struct Pmh2No(pub ProbMinHash2<u64, NoHash0>, usize);
+impl Pmh2No {
+    pub fn new(m: usize) -> Self {
+        Pmh2No(ProbMinHash2::new(m, INITOBJ), m)
+    }
+}
+impl Sk for Pmh2No {
+    fn m(&self) -> usize {
+        self.1
+    }
+    fn sketch(&mut self, it: &Item) -> &'static str {
+        self.0.hash_item(it.id, it.w);
+        O_OK
+    }
+    fn batch(&mut self, its: &[Item], entry: usize) -> &'static str {
+        match entry {
+            E_SLICE => self.0.hash_wset(&mut WSet::new(its)),
+            E_HASHMAP => self.0.hash_weigthed_hashmap::<FnvHasher>(&hashmap(its)),
+            _ => {
+                for it in its {
+                    self.0.hash_item(it.id, it.w);
+                }
+            }
+        }
+        O_OK
+    }
+    fn reinit(&mut self) -> &'static str {
+        self.0.reset();
+        O_OK
+    }
+    fn regs(&self) -> Vec<u128> {
+        self.0.verif_registers().iter().map(|x| fkey(*x)).collect()
+    }
+    fn regs_public(&self) -> bool {
+        false
+    }
+    fn sig(&self) -> Option<Vec<u64>> {
+        Some(self.0.get_signature().clone())
+    }
+    fn public_bits(&self) -> Vec<u64> {
+        self.0.get_signature().clone()
+    }
+    fn entries(&self) -> Vec<usize> {
+        vec![E_ITEMWISE, E_SLICE, E_HASHMAP]
+    }
+    fn as_any(&self) -> &dyn Any {
+        self
+    }
+}
+
+pub struct Pmh3No(pub ProbMinHash3<u64, NoHash0>, usize);
+impl Pmh3No {
+    pub fn new(m: usize) -> Self {
+        Pmh3No(ProbMinHash3::new(m, INITOBJ), m)
+    }
+}
+impl Sk for Pmh3No {
+    fn m(&self) -> usize {
+        self.1
+    }
+    fn sketch(&mut self, it: &Item) -> &'static str {
+        self.0.hash_item(it.id, &it.w);
+        O_OK
+    }
+    fn batch(&mut self, its: &[Item], entry: usize) -> &'static str {
+        match entry {
+            E_SLICE => self.0.hash_wset(&mut WSet::new(its)),
+            E_IDXMAP => self.0.hash_weigthed_idxmap(&idxmap(its)),
+            E_HASHMAP => self.0.hash_weigthed_hashmap(&hashmap(its)),
+            _ => {
+                for it in its {
+                    self.0.hash_item(it.id, &it.w);
+                }
+            }
+        }
+        O_OK
+    }
+    fn regs(&self) -> Vec<u128> {
+        self.0.verif_registers().iter().map(|x| fkey(*x)).collect()
+    }
+    fn regs_public(&self) -> bool {
+        false
+    }
+    fn sig(&self) -> Option<Vec<u64>> {
+        Some(self.0.get_signature().clone())
+    }
+    fn public_bits(&self) -> Vec<u64> {
+        self.0.get_signature().clone()
+    }
+    fn entries(&self) -> Vec<usize> {
+        vec![E_ITEMWISE, E_SLICE, E_IDXMAP, E_HASHMAP]
+    }
+    fn as_any(&self) -> &dyn Any {
+        self
+    }
+}
+
+pub struct Pmh3aNo(pub ProbMinHash3a<u64, NoHash0>, usize);
+impl Pmh3aNo {
+    pub fn new(m: usize) -> Self {
+        Pmh3aNo(ProbMinHash3a::new(m, INITOBJ), m)
+    }
+}
+impl Sk for Pmh3aNo {
+    fn m(&self) -> usize {
+        self.1
+    }
+    fn sketch(&mut self, it: &Item) -> &'static str {
+        self.0.hash_weigthed_idxmap(&idxmap(&[*it]));
+        O_OK
+    }
+    fn batch(&mut self, its: &[Item], entry: usize) -> &'static str {
+        match entry {
+            E_HASHMAP => self.0.hash_weigthed_hashmap(&hashmap(its)),
+            _ => self.0.hash_weigthed_idxmap(&idxmap(its)),
+        }
+        O_OK
+    }
+    fn regs(&self) -> Vec<u128> {
+        self.0.verif_registers().iter().map(|x| fkey(*x)).collect()
+    }
+    fn regs_public(&self) -> bool {
+        false
+    }
+    fn sig(&self) -> Option<Vec<u64>> {
+        Some(self.0.get_signature().clone())
+    }
+    fn public_bits(&self) -> Vec<u64> {
+        self.0.get_signature().clone()
+    }
+    fn entries(&self) -> Vec<usize> {
+        vec![E_IDXMAP, E_HASHMAP]
+    }
+    fn has_sketch1(&self) -> bool {
+        false
+    }
+    fn as_any(&self) -> &dyn Any {
+        self
+    }
+}
+
 pub struct Pmh3aSha(pub ProbMinHash3aSha<u64>, usize);
 impl Pmh3aSha {
     pub fn new(m: usize) -> Self {
@@ -568,6 +720,11 @@ pub fn make(c: &Cfg) -> Box<dyn Sk> {
         "pmh3" => Box::new(Pmh3::new(m)),
         "pmh3a" => Box::new(Pmh3a::new(m)),
         "pmh3asha" => Box::new(Pmh3aSha::new(m)),
+        "pmh2_no" => Box::new(Pmh2No::new(m)),
+        "pmh3_no" => Box::new(Pmh3No::new(m)),
+        "pmh3a_no" => Box::new(Pmh3aNo::new(m)),
+        "smh_f64_no32" => Box::new(SmhF64No32::new(m)),
+        "smh2_u64_no32" => Box::new(Smh2U64No32::new(m)),
         k => tool_error(&format!("unknown sketcher kind {}", k)),
     }
 }
